@@ -635,12 +635,25 @@ class Interp:
         if isinstance(node, ast.Lambda):
             return self.eval(node.body, env)
         self.call_stack.append(fn.qual)
+        is_gen = _is_generator(node)
+        if is_gen:
+            # a generator function is run eagerly and its yielded values are returned as a list: the same sequence of
+            # values for pure bodies (laziness is not observable without side effects)
+            env["$yielded"] = []
         try:
             self.exec_block(node.body, env)
         except _Return as r:
-            return r.value
+            return env["$yielded"] if is_gen else r.value
         finally:
             self.call_stack.pop()
+        return env["$yielded"] if is_gen else None
+
+    def e_Yield(self, e, env):
+        env.lookup("$yielded").append(self.eval(e.value, env) if e.value is not None else None)
+        return None
+
+    def e_YieldFrom(self, e, env):
+        env.lookup("$yielded").extend(list(self.iterate(self.eval(e.value, env))))
         return None
 
     def note_executed(self, fn):
@@ -1391,6 +1404,19 @@ class Interp:
                  RuntimeError="RuntimeError", KeyError="KeyError", IndexError="IndexError", Exception="Exception",
                  True_=True, None_=None, NotImplemented=NotImplemented, Ellipsis=Ellipsis)
         return b
+
+
+def _is_generator(node):
+    """does the function body (not nested functions / lambdas) contain yield?"""
+    stack = list(node.body)
+    while stack:
+        n = stack.pop()
+        if isinstance(n, (ast.Yield, ast.YieldFrom)):
+            return True
+        if isinstance(n, (ast.FunctionDef, ast.AsyncFunctionDef, ast.Lambda, ast.ClassDef)):
+            continue
+        stack.extend(ast.iter_child_nodes(n))
+    return False
 
 
 def _assigned_names(body):
